@@ -76,6 +76,8 @@ func RunC03(r *sim.Run) {
 	// two policies told apart by verb: get -> subset A (maybe empty = all), list -> subset B
 	subsetA := drawSubset(t.Draw, eps, true)
 	subsetB := drawSubset(t.Draw, eps, true)
+	subsetC := drawSubset(t.Draw, eps, true)
+	swapped, hasFront, frontVerb := false, false, "get"
 	build := func() *proxyv1alpha1.UpstreamCluster {
 		var present []string
 		obj := BaseCluster("alpha", nil)
@@ -105,6 +107,13 @@ func RunC03(r *sim.Run) {
 				Rules: []proxyv1alpha1.DispatchPolicyRule{{Verbs: []string{verb}, APIGroups: []string{"*"}, Resources: []string{"*"}}}}
 		}
 		obj.Spec.DispatchPolicies = []proxyv1alpha1.DispatchPolicy{pol("get", inter(subsetA)), pol("list", inter(subsetB))}
+		if swapped {
+			obj.Spec.DispatchPolicies = []proxyv1alpha1.DispatchPolicy{pol("list", inter(subsetB)), pol("get", inter(subsetA))}
+		}
+		if hasFront {
+			// a policy put in front of the others takes the verb over: every position shifts
+			obj.Spec.DispatchPolicies = append([]proxyv1alpha1.DispatchPolicy{pol(frontVerb, inter(subsetC))}, obj.Spec.DispatchPolicies...)
+		}
 		return obj
 	}
 	if err := w.Apply(build()); err != nil {
@@ -137,7 +146,8 @@ func RunC03(r *sim.Run) {
 	}
 	noteHealth()
 	nSteps := t.Range(15, 70)
-	specChanges, healthChanges := 0, 0
+	specChanges, healthChanges, duringUpdate := 0, 0, 0
+	concurrent := map[string]bool{} // requests sent while an update was being applied
 	for step := 0; step < nSteps; step++ {
 		pts := w.Sc.Points()
 		weights := []int{10, 0, 4, 0, 5, 0}
@@ -176,7 +186,7 @@ func RunC03(r *sim.Run) {
 		case 2: // spec update
 			specChanges++
 			s := srv[t.Draw(len(srv))]
-			switch t.Draw(4) {
+			switch t.Draw(6) {
 			case 0:
 				s.disabled = !s.disabled
 				r.Logf("spec: %s disabled=%v", s.ep, s.disabled)
@@ -200,10 +210,40 @@ func RunC03(r *sim.Run) {
 			case 3:
 				subsetB = drawSubset(t.Draw, eps, true)
 				r.Logf("spec: subsetB=%v", short(subsetB))
+			case 4:
+				swapped = !swapped
+				r.Logf("spec: policies swapped=%v", swapped)
+			case 5:
+				hasFront = !hasFront
+				if hasFront {
+					subsetC = drawSubset(t.Draw, eps, true)
+					frontVerb = []string{"get", "list"}[t.Draw(2)]
+				}
+				r.Logf("spec: front policy=%v verb=%s subsetC=%v", hasFront, frontVerb, short(subsetC))
 			}
+			// requests that arrive while the update is being applied: nothing settles
+			// between the update and them
+			kDuring := t.Draw(3)
+			w.NoWait = kDuring > 0
 			if err := w.Apply(build()); err != nil {
 				r.Logf("apply rejected: %v", firstLine(err.Error()))
 			}
+			for k := kDuring; k > 0; k-- {
+				nReq++
+				id := fmt.Sprintf("q%d", nReq)
+				verb, target := "get", "/api/v1/namespaces/default/pods/p1"
+				if t.Draw(2) == 1 {
+					verb, target = "list", "/api/v1/namespaces/default/pods"
+				}
+				w.SetScript(id, &Script{Status: 200, Body: []byte("ok-" + id)})
+				q := &Req{ID: id, Host: "alpha", Method: "GET", Target: target, Headers: [][2]string{{"Authorization", "Bearer tok"}, {"X-Verb", verb}}}
+				w.Send(q)
+				duringUpdate++
+				concurrent[id] = true
+				r.Logf("send %s %s during the update", id, verb)
+			}
+			w.NoWait = false
+			w.Quiesce()
 		case 3: // health / connectivity change of one stub
 			healthChanges++
 			st := w.StubFor(eps[t.Draw(len(eps))])
@@ -482,6 +522,52 @@ func RunC03(r *sim.Run) {
 					ok = true
 				}
 			}
+			if !ok && concurrent[o.ID] {
+				// the request ran while an update was being applied: each attribute of
+				// the endpoint may have been seen in its old or its new value (an
+				// endpoint that is enabled again is believed to be as healthy as it was
+				// when it was disabled until its next probe says otherwise; the
+				// failed-probe rule above holds the ground truth of health)
+				A, B := snapAt(o.Boundary), snapAt(o.Boundary+1)
+				inSpec, inSub, gwEnabled, healthy := false, false, false, false
+				for _, sn := range []*Snap{A, B} {
+					cs := sn.Clusters["alpha"]
+					if cs == nil || cs.Obj == nil {
+						continue
+					}
+					for _, sv := range cs.Obj.Spec.Servers {
+						if sv.Endpoint == o.Endpoint && (sv.Disabled == nil || !*sv.Disabled) {
+							inSpec = true
+						}
+					}
+					sub, all := policySubset(cs.Obj, verb)
+					if all {
+						inSub = true
+					}
+					for _, e := range sub {
+						if e == o.Endpoint {
+							inSub = true
+						}
+					}
+					if st, have := cs.Endpoints[o.Endpoint]; have {
+						if !st.Disabled {
+							gwEnabled = true
+						}
+						if st.Ready {
+							healthy = true
+						}
+					}
+				}
+				if ca := A.Clusters["alpha"]; ca != nil {
+					if st, have := ca.Endpoints[o.Endpoint]; have && st.Disabled {
+						healthy = true
+					}
+				}
+				ok = inSpec && inSub && gwEnabled && healthy
+				if ok {
+					r.Probe("pick_during_update_explained_by_a_mix_of_old_and_new_state")
+				}
+			}
 			if !ok {
 				cs := snapAt(o.Boundary).Clusters["alpha"]
 				why := describeIneligible(cs, o.Endpoint, verb, policySubset)
@@ -565,13 +651,30 @@ func RunC03(r *sim.Run) {
 				verb := verbOf(q)
 				// the decision was taken somewhere between start and end of the request
 				anyEmpty := false
+				var common map[string]bool
 				for b := q.StartBoundary; b <= q.EndBoundary+1; b++ {
-					if len(eligible(snapAt(b), verb)) == 0 {
+					el := eligible(snapAt(b), verb)
+					if len(el) == 0 {
 						anyEmpty = true
 					}
+					if common == nil {
+						common = el
+					} else {
+						for e := range common {
+							if !el[e] {
+								delete(common, e)
+							}
+						}
+					}
+				}
+				if concurrent[q.ID] && len(common) == 0 {
+					// the request ran while an update was being applied: the set of
+					// eligible endpoints changed under it (an endpoint added by the update
+					// is not ready before its first probe), so it may have been empty for a moment
+					anyEmpty = true
 				}
 				if !anyEmpty {
-					r.Violate("503_with_eligible_endpoint", "c03", "request %s (%s) got 503 no-ready-endpoints although an eligible endpoint existed throughout (state at start: %s)", q.ID, verb, snapDesc(snapAt(q.StartBoundary)))
+					r.Violate("503_with_eligible_endpoint", "c03", "request %s (%s) got 503 no-ready-endpoints although an eligible endpoint existed throughout (state at start: %s; at end: %s; answer: %s)", q.ID, verb, snapDesc(snapAt(q.StartBoundary)), snapDesc(snapAt(q.EndBoundary+1)), firstLine(st.Message))
 					return
 				}
 			}
@@ -582,6 +685,7 @@ func RunC03(r *sim.Run) {
 	r.ProbeN("no_ready_503", noReady)
 	r.ProbeN("health_probes_seen", probes)
 	r.ProbeN("spec_changes", specChanges)
+	r.ProbeN("requests_sent_while_an_update_was_being_applied", duringUpdate)
 	r.ProbeN("health_changes", healthChanges)
 	strayN := 0
 	for _, n := range stray {
